@@ -72,7 +72,9 @@ Section ColumnsOK.
       (fun (x : list (st R) * st rowsR) (vs : list (val R)) =>
          forall j v, nth_error vs j = Some v -> dom (coln (fst x) j) v)
       (fun x y : list (st R) * st rowsR =>
-         sim (snd x) (snd y) /\ forall j, sim (coln (fst x) j) (coln (fst y) j)).
+         sim (snd x) (snd y) /\ forall j, sim (coln (fst x) j) (coln (fst y) j))
+      (fun l : list (list (st R) * st rowsR) =>
+         forall j, mergeable (flat_map (fun cols : list (st R) => match nth_error cols j with Some c => [c] | None => [] end) (map fst l))).
 
   Lemma coln_0 cols : coln cols 0 = hd (dflt R) cols.
   Proof. destruct cols; reflexivity. Qed.
@@ -208,9 +210,10 @@ Section ColumnsOK.
   Qed.
 
   Lemma coln_merge_cols l j : (forall cols, In cols l -> forall j, inv (coln cols j)) ->
+    (forall j, mergeable (flat_map (fun cols : list (st R) => match nth_error cols j with Some c => [c] | None => [] end) l)) ->
     inv (coln (merge_cols R l) j).
   Proof.
-    intros Hl. unfold Columns.coln, merge_cols.
+    intros Hl Hm. unfold Columns.coln, merge_cols.
     set (n := fold_right Nat.max 0 (map (@length _) l)).
     destruct (Nat.lt_ge_cases j n) as [Hj|Hj].
     - rewrite nth_indep with (d' := merge R []) by (rewrite map_length, seq_length; assumption).
@@ -218,7 +221,7 @@ Section ColumnsOK.
       change (merge R []) with (merge R []). 
       rewrite (nth_indep _ _ (f 0)) by (rewrite map_length, seq_length; assumption).
       rewrite (map_nth f (seq 0 n) 0 j). rewrite seq_nth by assumption. simpl. unfold f.
-      apply merge_inv. rewrite Forall_forall. intros c Hc. apply in_flat_map in Hc.
+      apply merge_inv; [|apply Hm]. rewrite Forall_forall. intros c Hc. apply in_flat_map in Hc.
       destruct Hc as (cols & Hin & Hc). destruct (nth_error cols j) as [c0|] eqn:E; [|contradiction].
       destruct Hc as [<-|[]]. specialize (Hl cols Hin j). unfold Columns.coln in Hl.
       rewrite (nth_error_nth _ _ _ E) in Hl. exact Hl.
@@ -274,12 +277,12 @@ Section ColumnsOK.
       + split; [exact Hcs|]. intros j. rewrite (coln_beyond [] (j := j)) by (simpl; lia).
         apply coln_map_clear; exact Hic.
     - (* merge_inv *)
-      intros l Hl. cbn [inv columns_spec merge columns fst snd].
+      intros l Hl Hm. cbn [inv columns_spec merge columns fst snd].
       split.
-      { intros j. apply coln_merge_cols. intros cols Hin. apply in_map_iff in Hin.
+      { intros j. apply coln_merge_cols; [|exact Hm]. intros cols Hin. apply in_map_iff in Hin.
         destruct Hin as (x & <- & Hx). rewrite Forall_forall in Hl. apply (Hl x Hx). }
       split.
-      { apply (@merge_inv rowsR _ _). rewrite Forall_forall in *. intros y Hy. apply in_map_iff in Hy.
+      { apply (@merge_inv rowsR _ _); [|exact I]. rewrite Forall_forall in *. intros y Hy. apply in_map_iff in Hy.
         destruct Hy as (x & <- & Hx). apply (Hl x Hx). }
       intros k is Hk. exfalso. exact (@consec_no_valid_merge (owned (idx R)) _ _ _ _ O _ chk _ k Hk).
     - intros [cols rows]. cbn [fst snd sim columns_spec]. split; [apply (@sim_refl rowsR _ _)|intros j; apply sim_refl].
